@@ -640,7 +640,15 @@ def compare(case, res, replies):
                 return f"specification side of the model fails on a history the real code agrees with: {name}"
         return None
     if op == "opsx":
-        return None if res["t"] == m["t"] else f"impl trace {res['t']} vs model {m['t']}"
+        if res["t"] != m["t"]:
+            return f"impl trace {res['t']} vs model {m['t']}"
+        names = ("bufKind: what _buffer_out holds (results only / generator objects only)",
+                 "the next request() starts with the kept results / with iterReq over the kept generator objects",
+                 "the counters equal those of the history without its reset() calls")
+        for ok, name in zip(m.get("chk", []), names):
+            if ok is not True:
+                return f"specification side of the extended model fails on a history the real code agrees with: {name}"
+        return None
     if op in ("splitx", "runx"):
         if res["r"] != m["r"] or res["raised"] != m["raised"]:
             return f"impl {res['r']} raised={res['raised']} vs model {m['r']} raised={m['raised']}"
@@ -650,6 +658,8 @@ def compare(case, res, replies):
     if op == "run" and m.get("spec", m["r"]) != res["r"]:
         # the right-hand side of theorem run_blocks, evaluated by the driver
         return f"impl {res['r']} vs block specification of the model {m['spec']}"
+    if op == "run" and case["kind"] == "both" and m.get("rc") is not True:
+        return "RunConsistent fails for the test element that has run and fill/request (hypothesis of schedule_independent)"
     if op == "run" and case["kind"] == "frseq" and m.get("seqspec", m["r"]) != res["r"]:
         return f"impl {res['r']} vs rhs of seq_run_blocks {m['seqspec']}"
     if op == "run" and "r2" in res:
